@@ -166,12 +166,18 @@ class RetractionState(CommonMixin):
                 "G92 E{e}".format(e=eAxis.nativeToLogical())
             )
 
-            eAxis.current -= amount
+            if (eAxis.absoluteMode):
+                eAxis.current -= amount
+                extruderPosition = eAxis.nativeToLogical()
+            else:
+                # Relative extruder mode: the value is the offset back to the tracked position
+                extruderPosition = eAxis.nativeToLogical(eAxis.current - amount)
+                eAxis.current -= amount
 
             # Use "G1" over "G0", since an extrusion amount is being supplied
             returnCommands.append(
                 "G1 F{f} E{e}".format(
-                    e=eAxis.nativeToLogical(),
+                    e=extruderPosition,
                     f=self.feedRate / eAxis.unitMultiplier
                 )
             )
